@@ -41,7 +41,7 @@ type Config struct {
 
 func DefaultConfig() *Config {
 	return &Config{MaxDepth: 400, MaxSteps: 20_000_000, MaxCallDepth: 400, MaxPaths: 2_000_000, Workers: 8,
-		Timeouts: [4]int{5000, 30000, 30000, 60000}}
+		Timeouts: [4]int{5000, 30000, 30000, 30000}}
 }
 
 // Shared is the immutable (after load) program state shared by workers.
